@@ -406,7 +406,9 @@ class Parser:
 
         if dest is OpCode.PUSH:
             code_gen.push(value)
-        elif value is not dest:
+        elif move_inst is OpCode.MOVEQ or value is not dest:
+            # Moving a register or variable onto itself needs no code; a
+            # literal that happens to equal the destination's name does.
             code_gen.add_instruction(move_inst, value, dest)
 
         return self.next_token()
